@@ -18,7 +18,7 @@ pub enum FilterMode {
     LevelFatal,
 }
 
-fn make_filter(m: FilterMode) -> Option<ProcessedDltFilterConfig> {
+pub fn make_filter(m: FilterMode) -> Option<ProcessedDltFilterConfig> {
     match m {
         FilterMode::NoFilter => None,
         FilterMode::AllNone => Some(ProcessedDltFilterConfig { min_log_level: None, app_ids: None, ecu_ids: None, context_ids: None, app_id_count: 0, context_id_count: 0 }),
@@ -27,10 +27,18 @@ fn make_filter(m: FilterMode) -> Option<ProcessedDltFilterConfig> {
     }
 }
 
-/// For one declared length `len_field`: whenever the parser returns Ok, the
-/// remainder is the strict suffix starting at msg_start + len_field, and a
-/// filtered-out marker carries len_field - headers.
-pub fn consumption_one(s: &Shape, tail: usize, len_field: u16, fm: FilterMode, expect_ok: Option<bool>) {
+/// Verdict of the reference decoder for the bytes (computed by the catalogue
+/// generator from the layout: declared length vs headers, buffer and payload size).
+pub const EXP_ITEM: u8 = 0;
+pub const EXP_FILTERED: u8 = 1;
+pub const EXP_INCOMPLETE: u8 = 2;
+pub const EXP_REJECT: u8 = 3;
+
+/// For one declared length `len_field`: the parser's verdict is the reference
+/// verdict `expect`; whenever it returns Ok, the remainder is the strict suffix
+/// starting at msg_start + len_field, and a filtered-out marker carries
+/// len_field - headers.
+pub fn consumption_one(s: &Shape, tail: usize, len_field: u16, fm: FilterMode, expect: u8) {
     let bt = build(s, tail, Some(len_field), None);
     let input = bt.buf.slice();
     let filter = make_filter(fm);
@@ -44,39 +52,28 @@ pub fn consumption_one(s: &Shape, tail: usize, len_field: u16, fm: FilterMode, e
             assert!(rest.len() == input.len() - end, "remainder length");
             match pm {
                 ParsedMessage::FilteredOut(n) => {
-                    assert!(fm != FilterMode::NoFilter && fm != FilterMode::AllNone, "filtered without criteria");
+                    assert!(expect == EXP_FILTERED, "filtered out although the reference keeps / refuses the message");
                     assert!(n == len_field as usize - headers_len(s.htyp), "filtered-out marker does not carry the payload length");
-                    kani::cover!(true, "filtered out");
                 }
                 ParsedMessage::Item(m) => {
+                    assert!(expect == EXP_ITEM, "message returned where the reference filters / refuses / waits");
                     assert!(m.header.payload_length as usize == len_field as usize - headers_len(s.htyp));
-                    kani::cover!(true, "message returned");
                     std::mem::forget(m);
                 }
                 ParsedMessage::Invalid => assert!(false, "Invalid marker with a remainder"),
             }
-            if let Some(e) = expect_ok {
-                assert!(e, "parser succeeded where the reference does not");
-            }
         }
         Err(DltParseError::IncompleteParse { needed }) => {
+            assert!(expect == EXP_INCOMPLETE, "incomplete although the reference has a verdict for the complete declared message");
             if let Some(n) = needed {
-                assert!(n.get() >= 1);
-            }
-            if end <= input.len() && len_field as usize >= headers_len(s.htyp) {
-                // whole declared message is in the buffer: 'incomplete' would make a streaming caller wait forever
-                assert!(false, "incomplete although the declared message is completely in the buffer");
-            }
-            if let Some(e) = expect_ok {
-                assert!(!e, "parser reports incomplete where the reference accepts");
+                assert!(n.get() >= 1 && n.get() <= end - input.len(), "hint exceeds the missing bytes");
             }
         }
         Err(_) => {
-            if let Some(e) = expect_ok {
-                assert!(!e, "parser rejects where the reference accepts");
-            }
+            assert!(expect == EXP_REJECT, "rejected where the reference accepts or waits for more data");
         }
     }
+    kani::cover!(true, "call returned");
     std::mem::forget(filter);
 }
 
@@ -100,40 +97,10 @@ pub fn skipper_one(s: &Shape, tail: usize, len_field: u16) {
     }
 }
 
-macro_rules! c04_harness {
-    ($name:ident, $uw:expr, $shape:expr, $tail:expr, $fm:expr, [$($delta:expr),*]) => {
-        #[kani::proof]
-        #[kani::unwind($uw)]
-        #[kani::stub(std::fmt::format, crate::models::fmt_format_stub)]
-        #[kani::stub(core::str::from_utf8, crate::models::from_utf8_stub)]
-        #[kani::stub(std::hash::RandomState::new, random_state_stub)]
-        #[kani::stub(dlt_core::parse::forward_to_next_storage_header, crate::models::forward_stub)]
-        fn $name() {
-            let s: Shape = $shape;
-            let exact = (headers_len(s.htyp) + payload_size(&s.payload)) as i32;
-            $( { let l = exact + $delta; if l >= 0 { consumption_one(&s, $tail, l as u16, $fm, None); } } )*
-        }
-    };
-}
+// parser harnesses: gen_c04.rs (generated: one shape x filter mode x declared length per harness)
 
-const S_NV_MIN: Shape = Shape { storage: false, htyp: H_MIN, msin: 0, ids: IDS_FULL, payload: P::NonVerbose(2) };
 const S_NV_EXT_ST: Shape = Shape { storage: true, htyp: H_ALL_BE, msin: M_LOG_WARN_NV, ids: IDS_SHORT, payload: P::NonVerbose(1) };
-const S_CTRL: Shape = Shape { storage: false, htyp: H_EXT_LE, msin: M_CTRL_REQ, ids: IDS_FULL, payload: P::Control(2) };
-const S_V_BOOL: Shape = Shape { storage: false, htyp: H_EXT_LE, msin: M_LOG_INFO_V, ids: IDS_FULL, payload: P::Verbose(&[arg(AK::Bool)]) };
 const S_V_STR_ST: Shape = Shape { storage: true, htyp: H_EXT_BE, msin: M_LOG_INFO_V, ids: IDS_FULL, payload: P::Verbose(&[arg(AK::Str)]) };
-const S_NW: Shape = Shape { storage: false, htyp: H_EXT_LE, msin: M_NW_CAN_V, ids: IDS_FULL, payload: P::NetTrace(&[2]) };
-
-// exact length, shorter, longer (inside the tail), beyond the buffer, below the headers
-c04_harness!(c04_nonverbose_min_nofilter, 20, S_NV_MIN, 3, FilterMode::NoFilter, [0, -1, -2, 1, 3, 4, -6, -7]);
-c04_harness!(c04_nonverbose_ext_storage_nofilter, 24, S_NV_EXT_ST, 3, FilterMode::NoFilter, [0, -1, 2, 3, 4]);
-c04_harness!(c04_nonverbose_ext_storage_dropall, 24, S_NV_EXT_ST, 3, FilterMode::DropAll, [0, -1, 2, 3, 4]);
-c04_harness!(c04_nonverbose_min_dropall, 20, S_NV_MIN, 3, FilterMode::DropAll, [0, -1, 2, 4]);
-c04_harness!(c04_control_nofilter, 20, S_CTRL, 3, FilterMode::NoFilter, [0, -1, -2, -3, 1, 3, 4]);
-c04_harness!(c04_control_allnone, 20, S_CTRL, 3, FilterMode::AllNone, [0, 2]);
-c04_harness!(c04_verbose_bool_nofilter, 20, S_V_BOOL, 3, FilterMode::NoFilter, [0, -1, 1, 3, 4]);
-c04_harness!(c04_verbose_bool_level, 20, S_V_BOOL, 3, FilterMode::LevelFatal, [0, -1, 1, 3, 4]);
-c04_harness!(c04_verbose_string_storage_nofilter, 24, S_V_STR_ST, 3, FilterMode::NoFilter, [0, -1, -3, 2, 4]);
-c04_harness!(c04_nettrace_nofilter, 20, S_NW, 3, FilterMode::NoFilter, [0, -1, 2, 4]);
 
 #[kani::proof]
 #[kani::unwind(24)]
